@@ -12,7 +12,14 @@ FIRST_TRY = {'C01': True, 'C02': True, 'C03': False, 'C04': True, 'C05': False, 
              'C13b': True, 'C16b': False, 'C19b': False, 'C20b': True,
              'C02b': True, 'C08b': True, 'C11b': False, 'C12b': True, 'C14b': True, 'C15b': True, 'C17b': True, 'C18b': True,
              'C01c': True, 'C02c': True, 'C03c': True, 'C04c': True, 'C05c': True, 'C06c': False, 'C07c': True, 'C08c': True,
-             'C09c': True, 'C10c': False}
+             'C09c': True, 'C10c': False, 'C11c': True, 'C12c': True, 'C14c': True, 'C15c': True, 'C16c': False, 'C17c': True,
+             'C18c': True, 'C19c': False, 'C20c': False}
+REJECTED = {
+    'C13c': 'not confirmed: the change only matters when dataReceived() is called again after the agent\'s own '
+            'transport.loseConnection(); Twisted\'s TCP transport stops reading at that point (FileDescriptor.loseConnection -> '
+            'stopReading), so the changed and the original code behave identically under the real runtime. The sub-agent\'s '
+            'fake transport kept delivering. A replacement was requested (C13d).',
+}
 STRENGTHEN = {
     'C03': 'the C03 simulator tied the configured keep_alive_time to hold/3; it is now an independent configuration dimension {60,1,7,600}',
     'C05': 'histories now also end sessions by version-error NOTIFICATION, bad marker, early UPDATE, manual stop/start and hold expiry',
@@ -26,6 +33,9 @@ STRENGTHEN = {
     'C16b': 'OPTIONS was added to the method dimension of the matrix (an automatic empty 200 reply is tolerated, any effect is not)',
     'C06c': 'the change is in the REST layer (LOCAL_PREF 0 replaced by the iBGP default); C06 got a REST facet (the generated cases requested through POST /send/update on eBGP/iBGP sessions in both AS modes, decoded from the wire, plus a grid session kind x LOCAL_PREF x MED boundary values) and C16 got the same grid and a 2-octet-AS session dimension; both now catch it',
     'C10c': 'the negotiated hold time became a dimension of the hostile-input cases ({180, 90, 3, 0}); before, every session ran with hold time 180, so a malformed UPDATE re-arming a stopped hold timer was never seen',
+    'C16c': 'send cases now run with [bgp] rib on or off and with 0-2 earlier announcements on the same session whose prefixes the checked request may withdraw or re-announce (a withdraw list mixing announced and never-announced prefixes is the trigger)',
+    'C19c': 'new operation: one peer UPDATE that carries IPv4 withdrawn routes together with a flowspec / VPNv4 MP_REACH or MP_UNREACH attribute; both parts must be applied (patch rebased onto the current tree because a later fix touched the same lines; original kept as patch.orig.diff)',
+    'C20c': 'the peer address as configured became a dimension (IPv4, lower-case IPv6, upper-case IPv6) and a handler callback that raises is now a violation (event not logged) instead of a harness error',
     'C11b': 'a corpus of ~30 well-formed UPDATE bodies (one per family / route type, reference-encoded) was added and every octet position is set to each of 60 boundary values (all 256 in the thorough tier), plus Hypothesis 2-4 position mutations; before, only 5 values per position of the unit-test vectors were tried, which never produced an over-long next-hop / prefix length with enough octets behind it',
     'C19b': 'attribute sets that are supersets of one another (set 0 + MED, + COMMUNITIES) were added, so a re-announcement that only drops an attribute occurs',
 }
@@ -41,22 +51,25 @@ def main():
             meta = {}
         res = open(os.path.join(d, 'result.txt')).read().strip().split('\n') if os.path.exists(os.path.join(d, 'result.txt')) else []
         meta['property'] = pid[:3]
+        if pid in REJECTED:
+            meta['rejected_by_verifier'] = REJECTED[pid]
         meta['confirmed_by_verifier'] = {
             'ran': ['tools/try_seed.sh %s  (scratch copies of /repo under /tmp: demo on the clean copy; demo, unit tests and '
                     './check %s --tier quick with VERIF_REPO on the changed copy)' % (pid, pid[:3])],
             'results': res, 'caught_on_first_run': FIRST_TRY.get(pid), 'strengthening': STRENGTHEN.get(pid)}
         json.dump(meta, open(os.path.join(d, 'meta.json'), 'w'), indent=1)
         rows.append((pid, str(meta.get('summary', ''))[:260].replace('\n', ' '), str(meta.get('needs', ''))[:220].replace('\n', ' '),
-                     FIRST_TRY.get(pid), res[-1] if res else ''))
+                     FIRST_TRY.get(pid) if pid not in REJECTED else 'rejected', res[-1] if res else ''))
     with open(os.path.join(HERE, 'seeded', 'INDEX.md'), 'w') as f:
         f.write('# Seeded changes (written by fresh sub-agents that saw only the property text)\n\n'
                 'Round 1: one change per property (C01..C20). Round 2 (ids ending in b): a second, different change for all twenty\n'
-                'properties. Each directory holds patch.diff, the agent\'s demo.py, meta.json (incl. what the verifier ran) and\n'
+                'properties. Round 3 (ids ending in c / d): a third one, the sub-agent being told what rounds 1 and 2 had changed.\n'
+                'Each directory holds patch.diff, the agent\'s demo.py, meta.json (incl. what the verifier ran) and\n'
                 'result.txt; `tools/try_seed.sh <id>` re-runs the confirmation on scratch copies of /repo.\n\n'
                 '| id | change | needs | caught on first run | final check result |\n|---|---|---|---|---|\n')
         for r in rows:
             f.write('| %s | %s | %s | %s | %s |\n' % (r[0], r[1].replace('|', '/'), r[2].replace('|', '/'),
-                                                  'yes' if r[3] else 'no - check strengthened, see meta.json', r[4].replace('|', '/')))
+                                                  ('rejected as equivalent, see meta.json' if r[3] == 'rejected' else 'yes' if r[3] else 'no - check strengthened, see meta.json'), r[4].replace('|', '/')))
     print(len(rows), 'entries')
 
 
